@@ -6,6 +6,7 @@
 import Rtp.Proofs.H264Step
 import Rtp.Proofs.H264Parse
 import Rtp.Proofs.H264Obs
+import Rtp.Proofs.H264Holdback
 namespace Rtp.Proofs.H264
 open Rtp Rtp.Model Rtp.Model.H264 Rtp.Model.H264.Obs Rtp.Spec.Rfc6184 Rtp.Pred
 
@@ -147,5 +148,40 @@ theorem stepsOut_holdback (p : Pend) (nals : List Bytes) :
         · simp [h8, ih]
         · simp only [h8, Bool.false_eq_true, if_false]
           cases s <;> cases q <;> simp [ih]
+
+/-- a whole history from a new payloader: the fragments are the encoding of a legal plan that
+    carries exactly the units `delivered` says -/
+theorem history_plan (disable : Bool) (cs : List C10.RtCall) (hw : ∀ c ∈ cs, callWF c) :
+    ∃ plan : List Item, fragsCalls disable {} cs = encode plan ∧ plan.all Item.wf = true ∧
+      plan.all C10.headsApply = true ∧
+      plan.flatMap Item.nals = delivered disable (cs.flatMap C10.RtCall.nals) := by
+  obtain ⟨plan, e, w, ha, k⟩ := (frags_spec disable cs hw {} StOk.empty).ex
+  refine ⟨plan, e, w, ha, ?_⟩
+  rw [k]
+  cases disable with
+  | true => simp [delivered, stepsOut_disable]
+  | false => simp [delivered, stepsOut_holdback, pendOf]
+
+theorem callWF_of_wf (i : C10.RtInput) (h : i.wf = true) : ∀ c ∈ i.calls, callWF c := by
+  intro c hc
+  simp only [C10.RtInput.wf, Bool.and_eq_true, List.all_eq_true, decide_eq_true_eq,
+    Bool.or_eq_true, Bool.not_eq_true', beq_iff_eq] at h
+  obtain ⟨⟨h1, h2⟩, h3⟩ := h.1 c hc
+  refine ⟨h1, ?_, fun u hu => h3 u hu⟩
+  intro hb
+  rcases h2 with h2 | h2
+  · rw [hb] at h2; cases h2
+  · exact h2
+
+theorem expected_of_wf (i : C10.RtInput) (h : i.wf = true) : delivered i.disable i.nals = i.expected := by
+  simp only [C10.RtInput.wf, Bool.and_eq_true, Bool.or_eq_true] at h
+  simp only [delivered, C10.RtInput.expected]
+  cases hd : i.disable with
+  | true => simp
+  | false =>
+    simp only [Bool.false_eq_true, if_false]
+    rcases h.2 with h2 | h2
+    · rw [hd] at h2; cases h2
+    · exact holdback_paired i.nals h2
 
 end Rtp.Proofs.H264
